@@ -4,12 +4,14 @@ import Srsim.Model.Combat
 namespace CombatAdapter
 open Combat
 
-def parseTerms (r : Rec) : List (Nat × Float) :=
-  (r.list "terms").filterMap fun t => match t.splitOn ":" with
+def parseTermsOf (r : Rec) (field : String) : List (Nat × Float) :=
+  (r.list field).filterMap fun t => match t.splitOn ":" with
     | [k, v] => match k.toNat?, Wire.parseF v with
       | some k, some v => some (k, v)
       | _, _ => none
     | _ => none
+
+def parseTerms (r : Rec) : List (Nat × Float) := parseTermsOf r "terms"
 
 def weakList (r : Rec) : List Bool :=
   let w := r.ints "weak"
@@ -93,11 +95,28 @@ def tagsOf (r : Rec) (evs : List (Ev Float)) : List String :=
     | _ => none
   (r.name ++ (if r.name == "attack" then s!"-t{r.int "atype"}" else "") ++ (if r.has "adj" then "-adj" else "")) :: hitTags.eraseDups
 
+/-- a heal whose `HealStart` listener performs a heal of its own (fields `nsrc`, `ntgt`, `nterms`, `nflat`; the
+generator aims it at a unit that is not a target of the outer heal): for each target of the outer heal the listener's
+heal happens first — it is complete, and logged, before the outer `HealStart` is — and then the outer heal of that
+target, exactly as it would be without the listener.  Composed from the model's own `heal` steps. -/
+def nestedHeal (s : St Float) (p : HealP Float) (n : HealP Float) : St Float × List (Ev Float) :=
+  if p.targets.isEmpty || lifeOfU s p.src != some .alive then step s (.heal p)
+  else p.targets.foldl (fun (acc : St Float × List (Ev Float)) t =>
+      let r1 := step acc.1 (.heal n)
+      let r2 := step r1.1 (.heal { p with targets := [t] })
+      (r2.1, acc.2 ++ r1.2 ++ r2.2)) (s, [])
+
 def stepRec (s : St Float) (r : Rec) : St Float × List Rec × List String :=
   match opOfRec s r with
   | none => (s, [Rec.mk' "badop"], [])
   | some op =>
-    let (s', evs) := step s op
-    (s', evs.filterMap evRec, tagsOf r evs)
+    let (s', evs) := match op with
+      | .heal p =>
+        if r.has "nest" then
+          nestedHeal s p { key := 0, src := r.int "nsrc", targets := [r.int "ntgt"], flat := r.flt "nflat", adj := none,
+                           terms := parseTermsOf r "nterms" }
+        else step s op
+      | _ => step s op
+    (s', evs.filterMap evRec, tagsOf r evs ++ (if r.has "nest" then ["nested-heal"] else []))
 
 end CombatAdapter
